@@ -6,8 +6,8 @@ cd /verif
 if ! git -C /repo diff --quiet; then echo "/repo has uncommitted changes"; exit 9; fi
 git -C /repo apply /verif/seeded/$name/patch.diff || exit 8
 for p in $props; do
-  VERIF_WRITE_EVIDENCE= ./check $p --tier quick > /tmp/try_$name_$p.log 2>&1; rc=$?
-  echo "seed=$name check=$p exit=$rc"; grep -E "^(VIOLATION|UNDECIDED|CHECKER|  REFUTED)" /tmp/try_$name_$p.log | head -5
+  VERIF_WRITE_EVIDENCE= ./check $p --tier quick > /tmp/try_${name}_$p.log 2>&1; rc=$?
+  echo "seed=$name check=$p exit=$rc"; grep -E "^(VIOLATION|UNDECIDED|CHECKER|  REFUTED)" /tmp/try_${name}_$p.log | head -5
 done
 git -C /repo checkout -- .
 # evidence was rewritten on a mutated tree: restore it
